@@ -436,6 +436,7 @@ impl Container for DynamicContainer {
                 StorageError::NotFound(format!("key {} not in index", hex::encode(&key[..9])))
             })?
         };
+        #[cfg(feature = "verif-hooks")] crate::verif_hooks::sched_point("dynamic.read.index-looked-up");
 
         let archive_id = entry.archive_id();
         let archive_offset = entry.archive_offset();
@@ -511,6 +512,7 @@ impl Container for DynamicContainer {
             let mut archive = self.archive.write();
             archive.write_content(data, false)?
         };
+        #[cfg(feature = "verif-hooks")] crate::verif_hooks::sched_point("dynamic.write.archive-written");
 
         debug!(
             "wrote key {} to archive {} at offset {:#x}, size {}",
@@ -538,6 +540,7 @@ impl Container for DynamicContainer {
             let ekey_9: [u8; 9] = encoding_key[..9].try_into().unwrap_or([0; 9]);
             lru.write().touch(&ekey_9);
         }
+        #[cfg(feature = "verif-hooks")] crate::verif_hooks::sched_point("dynamic.write.index-added");
 
         // Persist the updated index to disk
         {
@@ -562,6 +565,7 @@ impl Container for DynamicContainer {
             let mut index = self.index.write();
             index.remove_entry(&ekey)
         };
+        #[cfg(feature = "verif-hooks")] crate::verif_hooks::sched_point("dynamic.remove.index-updated");
 
         if removed {
             debug!("removed key {} from index", hex::encode(&key[..9]));
